@@ -53,7 +53,10 @@ def rules(model: Model, tier: str) -> List[RuleResult]:
     _hy = ac.hygiene_rules(model, ac.get_fncls(model, '_SolveIVP'), PROP, min_copies=5, min_opt=2, min_conv=1, min_idx=6)
     from ..rules import substitution as _subst
     _sub = _subst.rules(model, PROP, tier)
-    return [R1, R2, R3, R4, R5, R6, R7, T, *_hy, Yr, *_sub]
+    from .c07 import direction_rule, _tensor_packer
+    Vd = RuleResult(PROP, "C08-V", "the adjoint sweep integrates on decreasing grids: the adaptive solver negates grid and dynamics together, the user function sees the true time", min_instances=4)
+    direction_rule(model, Vd)
+    return [R1, R2, R3, R4, R5, R6, R7, T, *_hy, Yr, Vd, *_sub]
 
 
 def _reanchoring(fc, Y: RuleResult):
